@@ -20,7 +20,9 @@ type sgen struct {
 
 var propNames = []string{"alpha", "beta", "gamma", "delta", "eps", "zeta"}
 var strPool = []string{"", "a", "bb", "é", "red", "green", "blue", "x y", "😀z"}
-var runePool = []rune("abé😀 Z")
+
+// (DEL, a private-use rune beyond the BMP and a tag character: legal in JSON strings as they are, not printable)
+var runePool = []rune("abé😀 Z\u007f\U0010FFFD\U000E0001\"\\\n")
 
 func (g *sgen) intn(lo, hi int, label string) int { return rapid.IntRange(lo, hi).Draw(g.rt, label) }
 func (g *sgen) coin(label string) bool            { return rapid.Bool().Draw(g.rt, label) }
